@@ -443,3 +443,421 @@ Proof.
 Qed.
 
 End Conc.
+
+(* ------------------------------------------------------------------ *)
+(* concurrent executor: what a completed execution returns              *)
+
+Lemma final_inv level txs s sched : inv (length txs) s (final_state current level txs s sched).
+Proof. unfold final_state. apply run_inv. apply inv_init. Qed.
+
+Lemma slot_good_receipt txs s rs i :
+  i < length txs -> slot_good s rs i ->
+  exists r, nth_error rs i = Some (Some r) /\ receipt_of false txs s i = Some r.
+Proof.
+  intros Hi (r & Hs & Hn). exists (RExec r). split; auto.
+  unfold receipt_of. destruct (nth_error txs i) as [t|] eqn:E.
+  - unfold slot_of. cbn [andb]. apply run_tx_ok_iff in Hs. rewrite Hs. reflexivity.
+  - apply nth_error_None in E. lia.
+Qed.
+
+(* the result of a completed concurrent execution, whatever the schedule *)
+Lemma exec_conc_spec level txs s sched :
+  match exec_conc level txs s sched with
+  | Ok rs => slots_match false txs s rs /\ (forall i, i < length txs -> ~ tx_fails (s i))
+  | Err => exists i, i < length txs /\ tx_fails (s i)
+  | Unfinished => ~ complete level txs s sched
+  end.
+Proof.
+  unfold exec_conc, exec_conc_gen, result_of, complete, is_done.
+  pose proof (final_inv level txs s sched) as I. apply inv_disp in I.
+  destruct (c_disp (final_state current level txs s sched)) as [i|i|j| |[|rs|]]; try discriminate;
+    cbn [disp_inv] in I.
+  - exact I.
+  - destruct I as (L & G). split.
+    + split; auto. intros i Hi. apply slot_good_receipt; auto.
+    + intros i Hi F. destruct (G i Hi) as (r & Hs & _). eapply succeeds_not_fails; eauto.
+  - contradiction.
+Qed.
+
+Lemma conc_all_or_error level txs s sched :
+  complete level txs s sched ->
+  exec_conc level txs s sched = Err \/
+  exists rs, exec_conc level txs s sched = Ok rs /\ slots_match false txs s rs.
+Proof.
+  intros C. pose proof (exec_conc_spec level txs s sched) as H.
+  destruct (exec_conc level txs s sched) as [|rs|]; [left; auto|right|contradiction].
+  exists rs. split; auto. apply H.
+Qed.
+
+Lemma conc_fatal_fails_block level txs s sched :
+  complete level txs s sched ->
+  (exists i, i < length txs /\ tx_fails (s i)) ->
+  exec_conc level txs s sched = Err.
+Proof.
+  intros C (i & Hi & F). pose proof (exec_conc_spec level txs s sched) as H.
+  destruct (exec_conc level txs s sched) as [|rs|]; auto; [|contradiction].
+  destruct H as (_ & H). exfalso. apply (H i Hi F).
+Qed.
+
+Lemma must_run_false t : must_run false t.
+Proof. reflexivity. Qed.
+
+(* a completed concurrent execution returns exactly what the sequential one returns *)
+Lemma conc_equiv_seq level txs s sched :
+  complete level txs s sched ->
+  exec_conc level txs s sched = exec_seq false txs s.
+Proof.
+  intros C. pose proof (exec_conc_spec level txs s sched) as HC.
+  pose proof (exec_seq_spec false txs s) as HS.
+  destruct (exec_conc level txs s sched) as [|rs|]; [| |contradiction].
+  - symmetry. apply seq_fatal_fails_block. destruct HC as (i & Hi & F).
+    destruct (nth_error txs i) as [t|] eqn:E.
+    + exists i, t. repeat split; auto.
+    + apply nth_error_None in E. lia.
+  - destruct HC as ((L & P) & NF).
+    destruct (exec_seq false txs s) as [|rs'|]; [| |contradiction].
+    + exfalso. destruct HS as (i & t & Ht & _ & F).
+      apply (NF i); auto. apply nth_error_Some. congruence.
+    + f_equal. destruct HS as (L' & P'). apply nth_error_eq_ext. intros i.
+      destruct (Nat.lt_ge_cases i (length txs)) as [Hi|Hi].
+      * destruct (P i Hi) as (r & H1 & H2). destruct (P' i Hi) as (r' & H1' & H2'). congruence.
+      * assert (E1 : nth_error rs i = None) by (apply nth_error_None; lia).
+        assert (E2 : nth_error rs' i = None) by (apply nth_error_None; lia). congruence.
+Qed.
+
+Definition no_tx_fails (txs : list tx) (s : script) : Prop := forall i, i < length txs -> ~ tx_fails (s i).
+
+Lemma conc_equiv_seq_on_success level txs s sched :
+  no_tx_fails txs s -> complete level txs s sched ->
+  exists rs, exec_conc level txs s sched = Ok rs /\ exec_seq false txs s = Ok rs /\ slots_match false txs s rs.
+Proof.
+  intros NF C. pose proof (conc_equiv_seq level txs s sched C) as E.
+  pose proof (exec_seq_spec false txs s) as HS. rewrite E.
+  destruct (exec_seq false txs s) as [|rs|]; [|eauto|contradiction].
+  exfalso. destruct HS as (i & t & Ht & _ & F). apply (NF i); auto. apply nth_error_Some. congruence.
+Qed.
+
+Lemma conc_schedule_independent level level' txs s sched sched' :
+  complete level txs s sched -> complete level' txs s sched' ->
+  exec_conc level txs s sched = exec_conc level' txs s sched'.
+Proof. intros C C'. rewrite (conc_equiv_seq _ _ _ _ C), (conc_equiv_seq _ _ _ _ C'). reflexivity. Qed.
+
+(* the mode switch of executeTxs *)
+Definition complete_txs (skipping : bool) (level : nat) (txs : list tx) (s : script) (sched : list actor) : Prop :=
+  skipping = false -> 1 < level -> complete level txs s sched.
+
+Lemma txs_all_or_error skipping level txs s sched :
+  complete_txs skipping level txs s sched ->
+  exec_txs skipping level txs s sched = Err \/
+  exists rs, exec_txs skipping level txs s sched = Ok rs /\ slots_match skipping txs s rs.
+Proof.
+  unfold exec_txs, complete_txs. intros C. destruct skipping.
+  - apply seq_all_or_error.
+  - destruct (1 <? level) eqn:L.
+    + apply Nat.ltb_lt in L. apply conc_all_or_error. auto.
+    + apply seq_all_or_error.
+Qed.
+
+Lemma txs_fatal_fails_block skipping level txs s sched :
+  complete_txs skipping level txs s sched ->
+  (exists i t, nth_error txs i = Some t /\ must_run skipping t /\ tx_fails (s i)) ->
+  exec_txs skipping level txs s sched = Err.
+Proof.
+  unfold exec_txs, complete_txs. intros C F. destruct skipping.
+  - apply seq_fatal_fails_block. exact F.
+  - destruct (1 <? level) eqn:L.
+    + apply Nat.ltb_lt in L. apply conc_fatal_fails_block; auto.
+      destruct F as (i & t & Ht & _ & Hf). exists i. split; auto. apply nth_error_Some. congruence.
+    + apply seq_fatal_fails_block. exact F.
+Qed.
+
+(* ------------------------------------------------------------------ *)
+(* no deadlock, and every execution can be completed                    *)
+
+Definition busy (p : wphase) : nat := match p with WFinished => 0 | _ => 1 end.
+Definition load (ws : list wphase) : nat := list_sum (map busy ws).
+
+Lemma load_app ws ws' : load (ws ++ ws') = load ws + load ws'.
+Proof. unfold load. rewrite map_app, list_sum_app. reflexivity. Qed.
+
+Lemma load_upd ws : forall i p p', nth_error ws i = Some p -> load (upd ws i p') + busy p = load ws + busy p'.
+Proof.
+  induction ws as [|q ws IH]; intros [|i] p p' H; cbn in H; try discriminate.
+  - inversion H; subst. unfold load. cbn. lia.
+  - specialize (IH i p p' H). unfold load in *. cbn. lia.
+Qed.
+
+Lemma load_pos ws : 0 < load ws -> exists i p, nth_error ws i = Some p /\ p <> WFinished.
+Proof.
+  induction ws as [|q ws IH]; unfold load; cbn; intros H; [lia|].
+  destruct q; try (exists 0; eexists; split; [reflexivity|discriminate]).
+  destruct (IH H) as (i & p & H1 & H2). exists (S i), p. auto.
+Qed.
+
+(* tokens + workers that still hold one = level *)
+Definition tinv (level : nat) (st : cstate) : Prop := c_tokens st + load (c_workers st) = level.
+
+Lemma tinv_init level n : tinv level (init level n).
+Proof. unfold tinv, load. cbn. lia. Qed.
+
+Lemma step_tinv v level n s st st' a : tinv level st -> step v n s st a = Some st' -> tinv level st'.
+Proof.
+  unfold tinv. destruct a as [|i]; cbn [step].
+  - unfold step_disp. destruct (c_disp st) as [i|i|j| |r].
+    + destruct (i <? n); [destruct (c_latch st)|]; intros T H; inversion H; subst; exact T.
+    + destruct (c_tokens st) as [|k] eqn:E; [discriminate|]. intros T H; inversion H; subst. cbn.
+      rewrite load_app. unfold load at 2. cbn. lia.
+    + destruct (j <? n); [destruct (nth_error (c_workers st) j) as [p|]; [destruct (committed p)|]|];
+        try discriminate; intros T H; inversion H; subst; exact T.
+    + intros T H; inversion H; subst; exact T.
+    + discriminate.
+  - unfold step_worker. destruct (nth_error (c_workers st) i) as [p|] eqn:E; [|discriminate].
+    intros T. destruct p as [retry| | | |].
+    + destruct (s i retry); [| destruct (RetryCount <=? retry) |]; intros H; inversion H; subst; cbn;
+        match goal with |- _ + load (upd _ _ ?q) = _ => pose proof (load_upd _ _ _ q E) end; cbn in *; lia.
+    + intros H; inversion H; subst; cbn. pose proof (load_upd _ _ _ WCommit E). cbn in *; lia.
+    + intros H; inversion H; subst; cbn. pose proof (load_upd _ _ _ WRelease E). cbn in *; lia.
+    + intros H; inversion H; subst; cbn. pose proof (load_upd _ _ _ WFinished E). cbn in *; lia.
+    + discriminate.
+Qed.
+
+Lemma run_tinv v level n s sched : forall st, tinv level st -> tinv level (run v n s st sched).
+Proof.
+  induction sched as [|a sched IH]; intros st T; cbn; auto.
+  destruct (step v n s st a) as [st'|] eqn:E; auto. apply IH. eapply step_tinv; eauto.
+Qed.
+
+Lemma worker_enabled v s st i p :
+  nth_error (c_workers st) i = Some p -> p <> WFinished -> exists st', step_worker v s st i = Some st'.
+Proof.
+  intros H Hp. unfold step_worker. rewrite H. destruct p as [retry| | | |]; try (eexists; reflexivity).
+  - destruct (s i retry); [| destruct (RetryCount <=? retry) |]; eexists; reflexivity.
+  - congruence.
+Qed.
+
+(* a measure that every step decreases *)
+Definition wmeasure (p : wphase) : nat :=
+  match p with
+  | WRun k => 4 + (S RetryCount - k)
+  | WReport => 3 | WCommit => 2 | WRelease => 1 | WFinished => 0
+  end.
+Definition wmax : nat := 4 + S RetryCount.
+Definition dmeasure (n : nat) (d : dphase) : nat :=
+  match d with
+  | DCheck i => (n - i) * (wmax + 2) + n + 3
+  | DAcquire i => (n - i) * (wmax + 2) + n + 2
+  | DWait j => (n - j) + 2
+  | DReturn => 1
+  | DDone _ => 0
+  end.
+Definition wsum (ws : list wphase) : nat := list_sum (map wmeasure ws).
+Definition measure (n : nat) (st : cstate) : nat := dmeasure n (c_disp st) + wsum (c_workers st).
+
+Lemma wsum_app ws ws' : wsum (ws ++ ws') = wsum ws + wsum ws'.
+Proof. unfold wsum. rewrite map_app, list_sum_app. reflexivity. Qed.
+
+Lemma wsum_upd ws : forall i p p', nth_error ws i = Some p -> wsum (upd ws i p') + wmeasure p = wsum ws + wmeasure p'.
+Proof.
+  induction ws as [|q ws IH]; intros [|i] p p' H; cbn in H; try discriminate.
+  - inversion H; subst. unfold wsum. cbn [upd map list_sum]. lia.
+  - specialize (IH i p p' H). unfold wsum in *. cbn [upd map list_sum]. lia.
+Qed.
+
+Lemma step_measure n s st st' a :
+  inv n s st -> step current n s st a = Some st' -> measure n st' < measure n st.
+Proof.
+  intros I. unfold measure. destruct a as [|i]; cbn [step].
+  - unfold step_disp. pose proof (inv_disp n s st I) as D.
+    destruct (c_disp st) as [i|i|j| |r]; cbn [disp_inv] in D.
+    + destruct (i <? n) eqn:Lt.
+      * apply Nat.ltb_lt in Lt. destruct (c_latch st); intros H; inversion H; subst; cbn; unfold wmax, RetryCount; lia.
+      * apply Nat.ltb_ge in Lt. intros H; inversion H; subst; cbn. lia.
+    + destruct (c_tokens st) as [|k]; [discriminate|]. intros H; inversion H; subst. cbn [c_disp c_workers].
+      rewrite wsum_app. unfold wsum at 2. cbn. unfold wmax, RetryCount. cbn.
+      destruct D as (_ & D). replace (n - i) with (S (n - S i)) by lia. lia.
+    + destruct (j <? n) eqn:Lt.
+      * apply Nat.ltb_lt in Lt. destruct (nth_error (c_workers st) j) as [p|]; [|discriminate].
+        destruct (committed p); [|discriminate]. intros H; inversion H; subst; cbn. lia.
+      * intros H; inversion H; subst; cbn. lia.
+    + intros H; inversion H; subst; cbn. lia.
+    + discriminate.
+  - unfold step_worker. destruct (nth_error (c_workers st) i) as [p|] eqn:E; [|discriminate].
+    destruct p as [retry| | | |].
+    + destruct (s i retry).
+      * intros H; inversion H; subst; cbn [c_disp c_workers].
+        pose proof (wsum_upd _ _ _ WCommit E). cbn in *. lia.
+      * destruct (RetryCount <=? retry) eqn:L; intros H; inversion H; subst; cbn [c_disp c_workers set_worker].
+        -- pose proof (wsum_upd _ _ _ WReport E). cbn in *. lia.
+        -- apply Nat.leb_gt in L. pose proof (wsum_upd _ _ _ (WRun (S retry)) E).
+           unfold RetryCount in *. cbn in *. lia.
+      * intros H; inversion H; subst; cbn [c_disp c_workers set_worker].
+        pose proof (wsum_upd _ _ _ WReport E). cbn in *. lia.
+    + intros H; inversion H; subst; cbn [c_disp c_workers].
+      pose proof (wsum_upd _ _ _ WCommit E). cbn in *. lia.
+    + intros H; inversion H; subst; cbn [c_disp c_workers set_worker].
+      pose proof (wsum_upd _ _ _ WRelease E). cbn in *. lia.
+    + intros H; inversion H; subst; cbn [c_disp c_workers].
+      pose proof (wsum_upd _ _ _ WFinished E). cbn in *. lia.
+    + discriminate.
+Qed.
+
+Lemma some_step_enabled level n s st :
+  1 <= level -> inv n s st -> tinv level st -> is_done st = false ->
+  exists a st', step current n s st a = Some st'.
+Proof.
+  intros Hl I T ND. unfold is_done in ND. pose proof (inv_disp n s st I) as D.
+  destruct (c_disp st) as [i|i|j| |r] eqn:E; cbn [disp_inv] in D; try discriminate.
+  - exists ADisp. cbn. unfold step_disp. rewrite E.
+    destruct (i <? n); [destruct (c_latch st)|]; eexists; reflexivity.
+  - destruct (c_tokens st) as [|k] eqn:Tk.
+    + unfold tinv in T. rewrite Tk in T.
+      destruct (load_pos (c_workers st)) as (w & p & Hw & Hp); [lia|].
+      destruct (worker_enabled current s st w p Hw Hp) as (st' & H). exists (AWorker w), st'. exact H.
+    + exists ADisp. cbn. unfold step_disp. rewrite E, Tk. eexists; reflexivity.
+  - destruct D as (L & Lj & C). destruct (j <? n) eqn:Lt.
+    + apply Nat.ltb_lt in Lt. destruct (nth_error (c_workers st) j) as [p|] eqn:Ep.
+      * destruct (committed p) eqn:Cp.
+        -- exists ADisp. cbn. unfold step_disp. rewrite E, Lt, Ep, Cp. eexists; reflexivity.
+        -- assert (Hp : p <> WFinished) by (intros ->; discriminate).
+           destruct (worker_enabled current s st j p Ep Hp) as (st' & H). exists (AWorker j), st'. exact H.
+      * apply nth_error_None in Ep. lia.
+    + exists ADisp. cbn. unfold step_disp. rewrite E, Lt. eexists; reflexivity.
+  - exists ADisp. cbn. unfold step_disp. rewrite E. eexists; reflexivity.
+Qed.
+
+(* while executeTxsConcurrent has not returned, some goroutine can move *)
+Lemma no_deadlock level txs s sched :
+  1 <= level ->
+  is_done (final_state current level txs s sched) = false ->
+  exists a st', step current (length txs) s (final_state current level txs s sched) a = Some st'.
+Proof.
+  intros Hl ND. eapply some_step_enabled; eauto.
+  - apply final_inv.
+  - unfold final_state. apply run_tinv. apply tinv_init.
+Qed.
+
+Lemma can_finish level n s : 1 <= level -> forall m st,
+  measure n st <= m -> inv n s st -> tinv level st ->
+  exists sched, is_done (run current n s st sched) = true.
+Proof.
+  intros Hl. induction m as [|m IH]; intros st Hm I T.
+  - destruct (is_done st) eqn:D; [exists []; exact D|].
+    destruct (some_step_enabled level n s st Hl I T D) as (a & st' & H).
+    pose proof (step_measure n s st st' a I H). lia.
+  - destruct (is_done st) eqn:D; [exists []; exact D|].
+    destruct (some_step_enabled level n s st Hl I T D) as (a & st' & H).
+    pose proof (step_measure n s st st' a I H) as Hlt.
+    destruct (IH st') as (sched & Hs).
+    + lia.
+    + eapply step_inv; eauto.
+    + eapply step_tinv; eauto.
+    + exists (a :: sched). cbn. rewrite H. exact Hs.
+Qed.
+
+Lemma run_app v n s sched1 : forall st sched2,
+  run v n s st (sched1 ++ sched2) = run v n s (run v n s st sched1) sched2.
+Proof.
+  induction sched1 as [|a r IH]; intros st sched2; cbn; auto.
+  destruct (step v n s st a); apply IH.
+Qed.
+
+(* every schedule prefix can be extended to a complete schedule *)
+Lemma complete_extension level txs s sched :
+  1 <= level -> exists more, complete level txs s (sched ++ more).
+Proof.
+  intros Hl. unfold complete, final_state.
+  destruct (can_finish level (length txs) s Hl _ (run current (length txs) s (init level (length txs)) sched) (le_n _))
+    as (more & H).
+  - apply run_inv. apply inv_init.
+  - apply run_tinv. apply tinv_init.
+  - exists more. rewrite run_app. exact H.
+Qed.
+
+(* ------------------------------------------------------------------ *)
+(* the code before commit b7219de, refuted                              *)
+
+Definition prefix_both : variant := {| v_report_first := false; v_return_latch := false |}.
+Definition prefix_report_only : variant := {| v_report_first := false; v_return_latch := true |}.
+Definition prefix_return_only : variant := {| v_report_first := true; v_return_latch := false |}.
+
+(* a block of two transactions: the first succeeds at once, the second fails fatally *)
+Definition w_txs : list tx := [ {| tx_skippable := false |}; {| tx_skippable := false |} ].
+Definition w_script : script := fun i _ => match i with 0 => OOk 7 | _ => OFatal end.
+(* dispatch both, let both workers run to the end, then wait and return *)
+Definition w_sched : list actor :=
+  [ADisp; ADisp; ADisp; ADisp;
+   AWorker 0; AWorker 0; AWorker 0;
+   AWorker 1; AWorker 1; AWorker 1; AWorker 1;
+   ADisp; ADisp; ADisp; ADisp; ADisp].
+
+Lemma w_fails : exists i, i < length w_txs /\ tx_fails (w_script i).
+Proof. exists 1. split; [cbn; lia|]. exists 0. repeat split; auto; [unfold RetryCount; lia|intros j H; lia]. Qed.
+
+Definition dropped (v : variant) : Prop :=
+  exists level txs s sched,
+    (exists i, i < length txs /\ tx_fails (s i)) /\
+    exec_conc_gen v level txs s sched = Ok [Some (RExec 7); None].
+
+Lemma prefix_both_refuted : dropped prefix_both.
+Proof. exists 2, w_txs, w_script, w_sched. split; [exact w_fails|]. vm_compute. reflexivity. Qed.
+
+Lemma prefix_report_only_refuted : dropped prefix_report_only.
+Proof. exists 2, w_txs, w_script, w_sched. split; [exact w_fails|]. vm_compute. reflexivity. Qed.
+
+Lemma prefix_return_only_refuted : dropped prefix_return_only.
+Proof. exists 2, w_txs, w_script, w_sched. split; [exact w_fails|]. vm_compute. reflexivity. Qed.
+
+(* the same block and schedule under the current code *)
+Example current_on_witness : exec_conc 2 w_txs w_script w_sched = Err.
+Proof. vm_compute. reflexivity. Qed.
+
+(* ------------------------------------------------------------------ *)
+(* non-vacuity                                                          *)
+
+Example ex_complete : complete 2 w_txs w_script w_sched.
+Proof. vm_compute. reflexivity. Qed.
+
+(* a block that succeeds with a retry, three transactions on two slots *)
+Definition e_txs : list tx := [ {| tx_skippable := false |}; {| tx_skippable := true |}; {| tx_skippable := false |} ].
+Definition e_script : script := fun i k =>
+  match i, k with
+  | 1, 0 => ORetry | 1, 1 => ORetry | 1, 2 => OOk 12
+  | _, _ => OOk (N.of_nat (10 * i))
+  end.
+Definition e_sched : list actor :=
+  [ADisp; ADisp; ADisp; ADisp; ADisp; ADisp (* blocked: both slots taken *);
+   AWorker 1; AWorker 0; AWorker 1; AWorker 0; AWorker 0 (* releases a slot *);
+   ADisp; ADisp; AWorker 2; AWorker 1; AWorker 1; AWorker 1; AWorker 2; AWorker 2;
+   ADisp; ADisp; ADisp; ADisp; ADisp].
+
+Example ex_success_complete : complete 2 e_txs e_script e_sched.
+Proof. vm_compute. reflexivity. Qed.
+Example ex_success_result :
+  exec_conc 2 e_txs e_script e_sched = Ok [Some (RExec 0); Some (RExec 12); Some (RExec 20)].
+Proof. vm_compute. reflexivity. Qed.
+Example ex_no_tx_fails : no_tx_fails e_txs e_script.
+Proof.
+  intros i Hi F. apply run_tx_fail_iff in F.
+  destruct i as [|[|[|i]]]; cbn in Hi; try lia; vm_compute in F; discriminate.
+Qed.
+Example ex_seq_success : exec_seq false e_txs e_script = Ok [Some (RExec 0); Some (RExec 12); Some (RExec 20)].
+Proof. vm_compute. reflexivity. Qed.
+Example ex_seq_skip : exec_seq true e_txs e_script = Ok [Some (RExec 0); Some RSkip; Some (RExec 20)].
+Proof. vm_compute. reflexivity. Qed.
+Example ex_seq_fatal : exec_seq false w_txs w_script = Err.
+Proof. vm_compute. reflexivity. Qed.
+Example ex_must_run_fails : exists i t, nth_error w_txs i = Some t /\ must_run false t /\ tx_fails (w_script i).
+Proof.
+  exists 1, {| tx_skippable := false |}. repeat split.
+  exists 0. repeat split; auto; [unfold RetryCount; lia|intros j H; lia].
+Qed.
+(* retries exhausted: three retryable failures, a fourth attempt is never made *)
+Example ex_exhausted : tx_fails (fun k => match k with 3 => OOk 1 | _ => ORetry end).
+Proof. exists 2. repeat split; auto. intros j Hj. destruct j as [|[|j]]; auto; lia. Qed.
+(* an incomplete schedule: the theorem hypotheses are not trivially true *)
+Example ex_incomplete : ~ complete 2 w_txs w_script [ADisp; ADisp; AWorker 0].
+Proof. vm_compute. discriminate. Qed.
+(* a state in which the dispatcher is blocked and only a worker can move *)
+Example ex_blocked_dispatcher :
+  step current 3 e_script (run current 3 e_script (init 1 3) [ADisp; ADisp; ADisp]) ADisp = None.
+Proof. vm_compute. reflexivity. Qed.
